@@ -178,10 +178,57 @@ SourceFlags(D) == IF D.kind = "glyphs" THEN {"ERASE_OPEN_CORNERS", "PROPAGATE_AN
 MergedFlags(D, entry, o) ==
   ((IF entry = "cli" THEN CliFlags(o) ELSE LibFlags(o)) \cup SourceFlags(D)) \ OptDef[o].off
 
-\* lib keys of the default master that reach the front end
-LibSeen(D, c) ==
-  {"private.*", "public.openTypeCategories (fallback to the UFO lib)"}
-  \cup (IF D.ufoOnly /\ c \in {"ufo", "dslib"} THEN {"public.skipExportGlyphs"} ELSE {})
+(* Lib / fontinfo keys of the (default) master that decide output, and WHERE ufo2fontir reads each of them     *)
+(* (ufo2fontir/src/source.rs).  via = "masterlib": straight from the default master's lib.plist / fontinfo.plist *)
+(* (same file on every route); "dslib+fallback": designspace lib first, then the master's lib.plist;             *)
+(* "dslib": only through the designspace lib, into which the constructor merges the default master's lib -       *)
+(* every key for a lone .ufo, every key EXCEPT public.* for a .designspace (merge_default_master_lib_into_       *)
+(* designspace_lib, skip_public_keys; comment at source.rs:283-286: "if source was a designspace we don't want   *)
+(* to copy over keys like public.skipExportGlyphs, but we do if it was a UFO").                                  *)
+LibKeyDef == [
+  public_glyphOrder          |-> [key |-> "public.glyphOrder",          via |-> "masterlib",       public |-> TRUE],   \* :1016
+  public_postscriptNames     |-> [key |-> "public.postscriptNames",     via |-> "masterlib",       public |-> TRUE],   \* :1059-1063
+  ufo2ft_useProductionNames  |-> [key |-> "com.github.googlei18n.ufo2ft.useProductionNames",
+                                                                        via |-> "masterlib",       public |-> FALSE],  \* :1054
+  public_openTypeMeta        |-> [key |-> "public.openTypeMeta",        via |-> "masterlib",       public |-> TRUE],   \* :1176
+  public_openTypeCategories  |-> [key |-> "public.openTypeCategories",  via |-> "dslib+fallback",  public |-> TRUE],   \* :1018-1024
+  public_skipExportGlyphs    |-> [key |-> "public.skipExportGlyphs",    via |-> "dslib",           public |-> TRUE],   \* :351
+  ufo2ft_filters             |-> [key |-> "com.github.googlei18n.ufo2ft.filters",
+                                                                        via |-> "dslib",           public |-> FALSE],  \* :396-404
+  ufo2ft_colorPalettes       |-> [key |-> "com.github.googlei18n.ufo2ft.colorPalettes",
+                                                                        via |-> "dslib",           public |-> FALSE],  \* :381,2130
+  ufo2ft_colorLayers         |-> [key |-> "com.github.googlei18n.ufo2ft.colorLayers",
+                                                                        via |-> "dslib",           public |-> FALSE],  \* :389,2159
+  varLib_featureVarsFeatureTag |-> [key |-> "com.github.fonttools.varLib.featureVarsFeatureTag",
+                                                                        via |-> "dslib",           public |-> FALSE],  \* :1332-1338
+  fontinfo_all               |-> [key |-> "fontinfo.plist (openTypeOS2*, openTypeGaspRangeRecords, names, metrics ...)",
+                                                                        via |-> "masterlib",       public |-> FALSE]
+]
+
+\* The documented UFO-only exception is DERIVED: a key a real designspace cannot inherit from its master is one
+\* that is read only through the designspace lib and is skipped by the merge because it is public.
+UfoOnlyKeys == {k \in DOMAIN LibKeyDef : LibKeyDef[k].via = "dslib" /\ LibKeyDef[k].public}
+\* ... and that is exactly the key the code comment names; public.openTypeMeta, public.postscriptNames,
+\* public.glyphOrder, public.openTypeCategories and all fontinfo values are NOT exceptions.
+ASSUME UfoOnlyKeys = {"public_skipExportGlyphs"}
+
+\* keys present in a design of class D (a `uk` design has all of them, a `u` design all but the UFO-only ones:
+\* the worst case for the model)
+KeysOf(D) ==
+  IF D.kind # "ufo" THEN {}
+  ELSE {k \in DOMAIN LibKeyDef : k \notin UfoOnlyKeys \/ D.ufoOnly}
+
+\* does the value of key k of the default master reach the front end when the design is presented in container c
+Seen(k, c) ==
+  LET d == LibKeyDef[k] IN
+  CASE d.via = "masterlib"      -> TRUE
+    [] d.via = "dslib+fallback" -> TRUE
+    [] d.via = "dslib"          -> IF d.public
+                                   THEN c \in {"ufo", "dslib"}   \* merged for a lone UFO; repeated by hand in dslib
+                                   ELSE TRUE                     \* private keys are merged on both routes
+    [] OTHER                    -> FALSE
+
+LibSeen(D, c) == {k \in KeysOf(D) : Seen(k, c)}
 
 IncludeRoot(c) == IF c = "memory" THEN "none" ELSE "parent directory"
 
@@ -199,7 +246,7 @@ ModelFont(D, c, entry, o) ==
 Cls(D, c) ==
   CASE c = "misnamed"                      -> "unrecognized"
     [] c = "memory" /\ ~D.selfContained    -> "noinclude"
-    [] c = "ds" /\ D.ufoOnly               -> "dsnolib"
+    [] c = "ds" /\ (KeysOf(D) \cap UfoOnlyKeys) # {} -> "dsnolib"
     [] OTHER                               -> "main"
 
 \* PROPERTY: same option set, same class => same result (bytes, or failure on both);
